@@ -56,6 +56,38 @@ THEOREMS = [
      "lookup_plugin (B \"clear\") ps = Some (clear_plugin uri_ok) -> all_scalar host = true -> "
      "handle ps (utf8_encode (client_message (B \"clear\") [B \"all\"; host])) s = "
      "({| hr_data := frame (B \"ok\") (Some (B \"cleared the caches on \" ++ utf8_encode host)); hr_close := false |}, s)"),
+    ("reply_total",
+     "forall (S : Type) (ps : plugins_chk S) (req : bytes) (s : S), plugins_total ps -> "
+     "exists hr s', handle_chk ps req s = Ok (hr, s') /\\ status_ok (hr_data hr)"),
+    ("handler_never_panics",
+     "forall (S : Type) (ps : plugins S) (req : bytes) (s : S), handle_chk (lift_plugins ps) req s = Ok (handle ps req s)"),
+    ("ping_never_panics",
+     "forall (S : Type) (args : list str) (s : S), ping_plugin_chk args s = Ok (ping_plugin args s)"),
+    ("log_truncation_refuted",
+     "exists (data : bytes) (line : str), utf8_decode data = Some line /\\ (length data > 64)%nat /\\ log_truncate_chk 64 data = Panic"),
+    ("socket_never_wedged",
+     "forall (S : Type) (ps : plugins_chk S) (blocked : bytes -> S -> bool) (env_step : N -> S -> S * bool) "
+     "(st : lts_state S) (evs : list event) (k : N) (req : bytes), plugins_total ps -> "
+     "conn_get k (l_conns st) = Some (PComplete req) -> Forall (fun ev => event_conn ev <> Some k) evs -> "
+     "let st1 := lrun ps blocked env_step st evs in conn_get k (l_conns st1) = Some (PComplete req) /\\ "
+     "(blocked req (l_env st1) = false -> let st2 := lstep ps blocked env_step st1 (EHandle k) in "
+     "(exists d, conn_get k (l_conns st2) = Some (PReplied d) /\\ status_ok d) /\\ "
+     "(forall j, j <> k -> conn_get j (l_conns st2) = conn_get j (l_conns st1)))"),
+    ("accept_never_blocked",
+     "forall (S : Type) (ps : plugins_chk S) (blocked : bytes -> S -> bool) (env_step : N -> S -> S * bool) "
+     "(st : lts_state S) (k : N) (req : bytes), l_listener st = Listening -> conn_get k (l_conns st) = None -> "
+     "let st1 := lrun ps blocked env_step st [EConnect k; ESend k req; EFin k] in "
+     "conn_get k (l_conns st1) = Some (PComplete req) /\\ l_listener st1 = Listening /\\ l_env st1 = l_env st /\\ "
+     "(forall j, j <> k -> conn_get j (l_conns st1) = conn_get j (l_conns st))"),
+    ("clients_cannot_close",
+     "forall (S : Type) (ps : plugins_chk S) (blocked : bytes -> S -> bool) (env_step : N -> S -> S * bool) "
+     "(st : lts_state S) (ev : event), (forall k, ev <> EHandle k) -> (forall e, ev <> EEnv e) -> "
+     "l_listener (lstep ps blocked env_step st ev) = l_listener st /\\ l_env (lstep ps blocked env_step st ev) = l_env st"),
+    ("rejected_requests_schedule_independent",
+     "forall (S : Type) (ps : plugins_chk S) (req : bytes), (utf8_decode req = None \\/ "
+     "exists line, utf8_decode req = Some line /\\ lookup_chk (request_name (quoted_str_split line)) ps = None) -> "
+     "exists d, starts_with (B \"error\") d = true /\\ forall s, handle_chk ps req s = Ok ({| hr_data := d; hr_close := false |}, s)"),
+    ("fixture_plugins_total", "plugins_total fx_plugins_chk"),
 ]
 RULE = ("(a) direct calls of kvarn_utils::encode_quoted_str / quoted_str_split / join against the Coq model (correspondence) and, for the "
         "round trip, against the specification 'the list itself' (oracle): ALL argument vectors over the alphabet {a, SP, \", ', \\} with one "
@@ -69,6 +101,24 @@ RULE = ("(a) direct calls of kvarn_utils::encode_quoted_str / quoted_str_split /
         "plugins returning Error / no data / binary data / close, a stateful counter plugin, then requests after the close; every reply "
         "(or its absence) is compared with the Coq model of the handler and listener. (c) the UTF-8 validator model against "
         "core::str::from_utf8 on boundary byte sequences and mutations. "
+        "(d) scripted sessions with SEVERAL connections at a time against a second instance that keeps kvarn's own `wait` and has a gated "
+        "plugin t-slow (component ctl.conc; steps open / write / fin / await / peek / drop / shutdown / release on numbered connections): "
+        "LONG requests -- unknown commands, raw and kvarnctl-encoded ping / t-args / t-fail / clear arguments whose 1-, 2-, 3- or 4-byte "
+        "UTF-8 character straddles (every split of the character) or ends at byte offset L, counted from the start of the request and from "
+        "the start of the argument, and requests that end at L or in the middle of that character, for L in {15..17, 31..33, 63..65, "
+        "127..129, 255..257, 1023..1025, 2047..2049, 4095..4097, 8191..8193, 65535..65537} (the constants of the path: with_capacity(16), "
+        "read_to_end's 32-byte probe, 4*1024, 2*1024), and invalid UTF-8 (truncated 2/3/4-byte sequences, lone continuation, 0xFF, overlong, "
+        "surrogate, > U+10FFFF) at those offsets; a sweep with 2-, 3- and 4-byte characters at EVERY byte offset below 300 (thorough: 1200) "
+        "of an unknown command and of a ping argument; PENDING requests -- 1..6 (one script each with 40 and 150) connections that are connected "
+        "and silent / have sent a part of their request (cut anywhere, also inside a character) / wait in `wait` for the shutdown / sit in "
+        "the slow plugin / have a reply they do not read / vanish in the middle of the request, while other connections make whole "
+        "exchanges (ping with unique tokens, unknown commands, invalid UTF-8, clear, plugin errors, the counter plugin, a closing command); "
+        "then the pending ones are completed in a random order (`wait` by Manager::shutdown); 300 (thorough: up to 2500) sequential "
+        "exchanges with reconnects and dropped connections on one instance. Every reply is compared with the Coq model (LTS of the "
+        "listener) AND checked by oracles that use no model: every request gets, on its own connection and within the bounded wait (6 s; "
+        "0.1-1 ms is typical), a non-empty reply beginning with ok or error (requests that are meant to wait excepted); not UTF-8 / "
+        "unknown command => error; ping and the echo plugins return exactly the arguments sent on that connection; the counter plugin "
+        "counts every request once; a connection is refused only after a closing request or the shutdown; the final ping is answered. "
         "distinct_nontrivial counts distinct (component, input, model outcome) triples whose input contains a space, a quote, a backslash or "
         "an empty string (direct part), every session, and every UTF-8 case with a byte >= 0x80")
 ASSUMPTIONS = [
@@ -77,10 +127,17 @@ ASSUMPTIONS = [
     "one request = everything the client wrote before shutting down its write side, one reply = everything the server wrote before dropping "
     "the connection (kvarn_signal's read_to_end framing, non-uring build); partial writes, the 100 ms re-listen after the socket file is "
     "deleted, and the close sent by a shutdown initiated elsewhere are not modelled",
-    "requests are handled one after the other (the sessions are sequential); concurrent requests run in separate tasks in kvarn and are "
-    "not modelled",
-    "plugins are functions (arguments, state) -> (response, state); post_send callbacks are not modelled. reload and wait are replaced by "
-    "harmless plugins in the harness (reload would re-execute the harness binary, wait blocks until shutdown)",
+    "concurrency is modelled as interleaving: the listener is a transition system whose events (connect, send, half-close, handler step, "
+    "environment) each concern one connection; a handler step is atomic (plugins are functions (arguments, state) -> (response, state), a "
+    "plugin that awaits something is 'blocked' until the state allows it); socket_never_wedged / accept_never_blocked quantify over all "
+    "states, all event sequences of the other connections and any number of connections. For the differential run the model commits to "
+    "one schedule (a handler runs as soon as its request is complete and it is not blocked); the generator keeps at most one "
+    "state-dependent request (t-count, closing commands) in flight, so that every schedule gives the same replies",
+    "promptness is a bounded wait in the run (6 s per reply, KV_C19_WAIT_MS), not a theorem: the theorems say the reply step is enabled "
+    "and independent of the other connections; that tokio runs a spawned task is trusted",
+    "post_send callbacks are not modelled. reload is replaced by a harmless plugin in the harness (it would re-execute the harness "
+    "binary); wait is replaced in the sequential sessions and is kvarn's own in the concurrent ones. A plugin that panics is outside the "
+    "property (reply_total assumes plugins_total; the built-in ping is proved total, the others are total by construction)",
     "clear is modelled for an instance without ports (no host collection is consulted); http's Uri parser is a parameter uri_ok, "
     "instantiated in the run by 'starts with / and consists of [a-z0-9/._-]' and only such paths are generated",
     "Debug formatting ({arg:?}) in shutdown's error message is modelled for strings without control / non-printable characters; the "
@@ -90,9 +147,12 @@ ASSUMPTIONS = [
     "after a closing response the harness waits until the kernel no longer lists the listening socket (/proc/net/unix) before it sends the "
     "next request: the short window in which the accept loop has not yet seen the close message is outside the property",
 ]
-TRUSTED = ["modelled: utils/src/lib.rs encode_quoted_str, QuotedStrSplitIter::next, join; src/ctl.rs listen (handler closure, reply framing), "
-           "with_ping, with_shutdown, with_clear (argument handling); signal/src/lib.rs start_at accept loop (Listening/Closed); "
-           "ctl/src/main.rs message construction and reply reading",
+TRUSTED = ["modelled: utils/src/lib.rs encode_quoted_str, QuotedStrSplitIter::next, join; src/ctl.rs listen (handler closure, reply framing, "
+           "with every slice / String::remove explicit as str_slice_chk / str_remove_chk / frame_chk), with_ping, with_shutdown, with_clear "
+           "(argument handling), with_wait (blocked until shutdown); signal/src/lib.rs start_at accept loop and per-connection task "
+           "(Listening/Closed, connection phases refused / open / complete / replied); ctl/src/main.rs message construction and reply reading",
+           "byte-index slicing of a &str/String: every site in src/ctl.rs, signal/src/lib.rs and the quoting code of utils/src/lib.rs was "
+           "inspected -- the only one is data.remove(0) in with_ping (modelled, proved safe); data[..prepend.len()] is on a Vec<u8>",
            "/proc/net/unix is used by the harness only to wait for the listener's start and stop"]
 EXHAUSTIVE = False
 
@@ -269,6 +329,410 @@ def sessions(rng, n):
     return out
 
 
+# ---- concurrent, pending and long requests (ctl.conc) ------------------------------------------------
+OP_OPEN, OP_WRITE, OP_FIN, OP_AWAIT, OP_SHUTDOWN, OP_RELEASE, OP_DROP, OP_REQ, OP_SEND, OP_PEEK = range(10)
+
+
+def st(op, k=0, b=None):
+    return xl(xn(op), xn(k)) if b is None else xl(xn(op), xn(k), xb(b))
+
+
+def conc(steps, kind):
+    return Case("ctl.conc", xlist(steps), None, {"kind": kind})
+
+
+# every length constant of the code path: String::with_capacity(16) (utils), read_to_end's 32-byte probe (tokio),
+# Vec::with_capacity(4 * 1024) and the 2 KiB uring reply buffer (signal), and the powers of two around them;
+# 64 is the MAX_LOGGED of the regression patch
+SMALL_BOUNDS = [15, 16, 17, 31, 32, 33, 63, 64, 65, 127, 128, 129, 255, 256, 257, 1023, 1024, 1025, 2047, 2048, 2049, 4095, 4096, 4097]
+BIG_BOUNDS = [8191, 8192, 8193, 65535, 65536, 65537]
+CHARS = {1: ["a", "~"], 2: ["ö", "߿", "\u0080"], 3: ["€", "￿", "ࠀ"], 4: ["\U0001f600", "\U0010ffff", "\U00010000"]}
+STRADDLES = [(1, 0), (2, 1), (3, 1), (3, 2), (4, 1), (4, 2), (4, 3)]      # (width of the character, bytes of it before the boundary)
+BAD_AT = [b"\xc3", b"\xe2\x82", b"\xf0\x9f\x98", b"\x80", b"\xff", b"\xc0\x80", b"\xed\xa0\x80", b"\xf4\x90\x80\x80"]
+
+
+def filler(n, chunk):
+    """n bytes of ASCII; with chunk: no token longer than chunk (the model's splitter is quadratic in the token length)"""
+    if not chunk or n <= chunk:
+        return b"a" * n
+    out = bytearray()
+    while len(out) < n:
+        out += b"b" * min(chunk, n - len(out))
+        if len(out) < n:
+            out += b" "
+    return bytes(out)
+
+
+def place(prefix, L, before, ch, rel, chunk, tail=b"zz"):
+    """prefix + filler + ch + tail, with `before` bytes of ch in front of byte offset L (counted from the start of the
+    request, rel='req', or from the end of the prefix, rel='arg'); None if it does not fit"""
+    n = L - before - (len(prefix) if rel == "req" else 0)
+    if n < 0:
+        return None
+    return prefix + filler(n, chunk) + ch + tail
+
+
+def long_requests(rng, quick):
+    """(kind, request) pairs around every boundary"""
+    out = []
+    forms = [(b"", "req"), (b"nope ", "req"), (b"ping ", "req"), (b"ping ", "arg"), (b"t-fail ", "req"), (b"clear all ", "arg"), (b'"ping" "', "req"), (b"t-args x ", "arg"),
+             (b"shutdown ", "arg"), (b"wait ", "arg")]
+    for L in SMALL_BOUNDS + BIG_BOUNDS:
+        big = L > 4097
+        chunk = 700 if big else None
+        fs = forms if not big else ([forms[0], forms[2]] if quick and L > 9000 else forms[:5])
+        for fi, (prefix, rel) in enumerate(fs):
+            for (w, before) in STRADDLES:
+                if quick and L > 9000 and (w, before) not in ((2, 1), (3, 2), (4, 1), (4, 3)):
+                    continue
+                chars = CHARS[w] if (not quick and not big) else [CHARS[w][(L + fi) % len(CHARS[w])]]
+                if prefix == b"shutdown ":
+                    chars = CHARS[w][:1]      # echoed with {:?}: printable characters only (see ASSUMPTIONS)
+                for chs in chars:
+                    ch = chs.encode("utf-8")
+                    tail = b'zz"' if prefix.endswith(b'"') else b"zz"
+                    r = place(prefix, L, before, ch, rel, chunk, tail)
+                    if r is not None:
+                        out.append(("long-straddle", r))
+                    # the request ends right after / in the middle of that character
+                    if rel == "req" and not prefix.endswith(b'"') and not (quick and L > 9000 and fi):
+                        r = place(prefix, L, before, ch, rel, chunk, b"")
+                        if r is not None:
+                            out.append(("long-straddle", r))
+                            if before:
+                                out.append(("long-invalid", r[:L]))
+        for prefix, rel in (forms[0], forms[2], forms[7]) if not (quick and L > 9000) else (forms[0],):
+            for bad in BAD_AT[:4] if quick and L > 9000 else BAD_AT:
+                for before in (1,) if quick and L > 9000 else (0, 1):
+                    r = place(prefix, L, before, bad, rel, chunk, b"z")
+                    if r is not None:
+                        out.append(("long-invalid", r))
+    # single very long tokens (thorough only: ~1-5 s of model time each)
+    if not quick:
+        for L in (8192, 16384):
+            for prefix in (b"", b"ping "):
+                out.append(("long-token", place(prefix, L, 1, "ö".encode(), "req", None)))
+    return out
+
+
+def long_sessions(rng, quick):
+    reqs = long_requests(rng, quick)
+    out = []
+    small = [r for r in reqs if len(r[1]) <= 5000]
+    big = [r for r in reqs if len(r[1]) > 5000]
+    # sweep: multi-byte characters at every byte offset of the first 300 (thorough: 1200) bytes of an unknown command and of an argument
+    sweep = [("sweep", ("cleer file exempel.se /blogg/%s.html" % ("räksmörgås-" * 6)).encode())]
+    for pad in range(0, 300 if quick else 1200):
+        for n, tail in enumerate(("é", "åäö", "日本語", "🦀🦀")):
+            sweep.append(("sweep", b"y" * pad + tail.encode() + b" arg"))
+            if (pad + n) % 2 == 0:
+                sweep.append(("sweep", b"ping " + b"y" * pad + tail.encode()))
+    for i in range(0, len(sweep), 100):
+        steps = [st(OP_REQ, k + 1, r) for k, (_, r) in enumerate(sweep[i:i + 100])]
+        steps.append(st(OP_REQ, 9000, b"ping still there"))
+        out.append(conc(steps, "session-sweep"))
+    for group, size in ((small, 40), (big, 6)):
+        for i in range(0, len(group), size):
+            steps = [st(OP_REQ, k + 1, r) for k, (_, r) in enumerate(group[i:i + size])]
+            steps.append(st(OP_REQ, 9000, b"ping end"))
+            kinds = {k for k, _ in group[i:i + size]}
+            out.append(conc(steps, "session-long-invalid" if kinds == {"long-invalid"} else "session-long"))
+    return out
+
+
+def tok(rng):
+    return bytes(rng.choice(b"abcdefghijklmnopqrstuvwxyz0123456789") for _ in range(rng.randrange(1, 9)))
+
+
+def other_request(rng, k):
+    """a request that is answered at once and whose reply does not depend on anything else in flight"""
+    r = rng.random()
+    if r < 0.35:
+        return b"ping c%d " % k + tok(rng)
+    if r < 0.50:
+        return b"zz" + tok(rng) + (b" " + tok(rng) if rng.random() < 0.5 else b"")
+    if r < 0.60:
+        return rng.choice((b"clear bogus", b"clear", b"clear all h%d" % k, b"clear file h", b"shutdown now", b"wait x"))
+    if r < 0.70:
+        return rng.choice(INVALID_UTF8[:13])
+    if r < 0.80:
+        return rng.choice((b"t-fail e%d" % k, b"t-fail-empty", b"t-ok-empty", b"t-bin", b"t-args a%d" % k))
+    if r < 0.90:
+        return client_line(S("ping"), [S("c%d" % k)] + rand_vec(rng, 2))
+    return rng.choice(RAW_LINES[:26])
+
+
+def split_points(rng, req):
+    n = len(req)
+    cuts = sorted({rng.randrange(0, n + 1) for _ in range(rng.randrange(1, 4))}) if n else [0]
+    parts, last = [], 0
+    for c in cuts:
+        parts.append(req[last:c])
+        last = c
+    parts.append(req[last:])
+    return parts
+
+
+def pending_script(rng, kinds, nothers, closer=None, tcount=False):
+    """`kinds`: the pending connections to create; then `nothers` complete exchanges while all of them are pending;
+    then the pending ones are completed in a random order."""
+    steps, finish = [], []
+    k = 0
+    has_wait = False
+    # a `shutdown` among the other requests lets `wait` answer: then it is awaited, not peeked at (a peek is only generated
+    # for a connection that certainly has no reply yet, so that no verdict depends on how fast a reply arrives)
+    shut = closer is not None and b"shutdown" in closer
+    slow = []
+    for kind in kinds:
+        k += 1
+        body = b"ping p%d " % k + tok(rng) if rng.random() < 0.7 else rng.choice((b"zz-unknown p%d" % k, "räksmörgås p%d".encode() % k,
+                                                                                    b"t-args p%d" % k, b"ping \xff", b"t-fail p%d" % k))
+        if kind == "idle":            # connected, nothing sent yet
+            steps.append(st(OP_OPEN, k))
+            finish.append([st(OP_WRITE, k, body), st(OP_FIN, k), st(OP_AWAIT, k)])
+        elif kind == "half":          # connected, a part of the request sent (cut anywhere, also inside a character)
+            if rng.random() < 0.5:
+                body = client_line(S("ping"), [S("p%d" % k)] + rand_vec(rng, 3))
+            parts = split_points(rng, body)
+            steps += [st(OP_OPEN, k), st(OP_WRITE, k, parts[0])]
+            finish.append([st(OP_WRITE, k, p) for p in parts[1:]] + [st(OP_FIN, k), st(OP_AWAIT, k)])
+        elif kind == "unread":        # request complete, reply not read yet
+            steps.append(st(OP_SEND, k, body))
+            finish.append([st(OP_AWAIT, k)])
+        elif kind == "slow":          # a plugin that takes its time
+            steps.append(st(OP_SEND, k, b"t-slow p%d" % k))
+            slow.append(k)
+            finish.append([st(OP_AWAIT, k)])
+        elif kind == "wait":          # kvarn's own `wait`: answers when the instance shuts down
+            steps.append(st(OP_SEND, k, b"wait"))
+            has_wait = True
+            finish.append([st(OP_AWAIT if shut else OP_PEEK, k)])
+        elif kind == "drop":          # a client that goes away in the middle of its request
+            steps += [st(OP_OPEN, k), st(OP_WRITE, k, b"ping gone"[:rng.randrange(0, 10)])]
+            finish.append([st(OP_DROP, k)])
+    rng.shuffle(steps) if rng.random() < 0.3 else None
+    base = 10000
+    for n in range(nothers):
+        if tcount and rng.random() < 0.25:
+            steps.append(st(OP_REQ, base + n, b"t-count"))
+        else:
+            steps.append(st(OP_REQ, base + n, other_request(rng, base + n)))
+        if closer is not None and n == nothers // 2:
+            steps.append(st(OP_REQ, 20000, closer))
+    rng.shuffle(finish)
+    released = False
+    for f in finish:
+        if not released and f[0][1][1][1] in slow and f[0][1][0][1] == OP_AWAIT:
+            # all slow requests are still pending here: look, then open the gate
+            steps += [st(OP_PEEK, j) for j in slow] + [st(OP_RELEASE)]
+            released = True
+        steps += f
+    steps.append(st(OP_REQ, 30000, b"ping end"))
+    if has_wait and not shut:
+        steps.append(st(OP_SHUTDOWN))
+        for i, kind in enumerate(kinds):
+            if kind == "wait":
+                steps.append(st(OP_AWAIT, i + 1))
+    if has_wait:
+        steps.append(st(OP_REQ, 30001, b"ping after"))
+    return steps
+
+
+PENDING_KINDS = ("idle", "half", "unread", "slow", "wait", "drop")
+
+
+def conc_sessions(rng, quick):
+    out = []
+    # the regression scenario: `wait` pending, then ping / unknown / clear, then shutdown
+    out.append(conc([st(OP_REQ, 1, b"ping one"), st(OP_REQ, 2, b"no-such-command"), st(OP_SEND, 3, b"wait")]
+                    + [st(OP_REQ, 10 + n, b'ping "while waiting" %d' % n) for n in range(3)]
+                    + [st(OP_REQ, 20, b"clear bogus"), st(OP_PEEK, 3), st(OP_SHUTDOWN), st(OP_AWAIT, 3), st(OP_REQ, 21, b"ping after")], "conc-pending"))
+    for kind in PENDING_KINDS:
+        for n in (1, 3):
+            out.append(conc(pending_script(rng, [kind] * n, 4), "conc-pending"))
+    out.append(conc(pending_script(rng, list(PENDING_KINDS), 6, tcount=True), "conc-pending"))
+    for c in CLOSERS[:4]:
+        out.append(conc(pending_script(rng, ["idle", "half", "unread", "slow"], 4, closer=c), "conc-pending-close"))
+    for _ in range(20 if quick else 600):
+        kinds = [rng.choice(PENDING_KINDS) for _ in range(rng.randrange(1, 7))]
+        closer = rng.choice(CLOSERS) if rng.random() < 0.2 else None
+        out.append(conc(pending_script(rng, kinds, rng.randrange(1, 8), closer=closer, tcount=True),
+                        "conc-pending-close" if closer else "conc-pending"))
+    # many connections pending at once
+    for n in ((40, 150) if quick else (40, 150, 400)):
+        out.append(conc(pending_script(rng, [rng.choice(("idle", "half", "unread", "slow")) for _ in range(n)], 5), "conc-many-pending"))
+    # hundreds of sequential exchanges and reconnects (connections opened and dropped without a request in between)
+    for n in ((300,) if quick else (300, 1000, 2500)):
+        steps = []
+        for i in range(n):
+            r = i % 10
+            if r == 3:
+                steps.append(st(OP_REQ, i, b"t-count"))
+            elif r == 5:
+                steps += [st(OP_OPEN, i), st(OP_WRITE, i, b"ping dropped"), st(OP_DROP, i)]
+            elif r == 7:
+                steps.append(st(OP_REQ, i, b"zz%d" % i))
+            elif r == 8:
+                steps.append(st(OP_REQ, i, b"ping \xe2\x82"))
+            else:
+                steps.append(st(OP_REQ, i, b"ping n%d" % i))
+        steps.append(st(OP_REQ, 90000, b"ping end"))
+        out.append(conc(steps, "conc-sequential"))
+    return out
+
+
+# ---- oracles that need no model ----------------------------------------------------------------------
+# Derived from the text of the property and from the script alone (so they also work on a replay file):
+#  * every request gets a non-empty reply that begins with `ok` or `error` within the bounded wait (requests that are
+#    meant to wait -- `wait` before the shutdown, `t-slow` before the release -- excepted), on its own connection;
+#  * not UTF-8 / unknown command => `error`; `ping` echoes its arguments exactly; the test plugins echo theirs;
+#    the counter plugin counts every `t-count` exactly once;
+#  * a connection is refused only after a request that may close the socket was sent (or the instance was shut down).
+import re
+
+KNOWN_COMMANDS = {b"t-args", b"t-fail", b"t-ok-empty", b"t-fail-empty", b"t-close", b"t-fail-close", b"t-bin", b"t-count", b"", b"reload", b"wait",
+                  b"shutdown", b"ping", b"clear", b"t-slow"}
+PLAIN = rb"[A-Za-z0-9_.:/-]+"
+RE_PLAIN_CALL = re.compile(rb"^(ping|t-args|t-fail|t-slow)((?: " + PLAIN + rb")*)$")
+RE_ENCODED_PING = re.compile(rb'^"ping"((?: "(?:[^"\\]|\\["\\])*")+)$', re.S)
+RE_FIRST_WORD = re.compile(rb"^([^ \"'\\]+)(?: |$)")
+
+
+def may_close(req):
+    return b"close" in req or b"shutdown" in req
+
+
+def expected_reply(req):
+    """('exact', bytes) | ('prefix', bytes) | None, from the request alone"""
+    try:
+        req.decode("utf-8")
+    except UnicodeDecodeError:
+        return ("prefix", b"error")
+    m = RE_PLAIN_CALL.match(req)
+    if m:
+        name, args = m.group(1), m.group(2).split()
+        if name == b"ping":
+            return ("exact", b"ok" + b"".join(b' "' + a + b'"' for a in args))
+        status = b"error " if name == b"t-fail" else b"ok "
+        return ("exact", status + name + b"\x1f" + b"".join(a + b"\x1f" for a in args))
+    m = RE_ENCODED_PING.match(req)
+    if m:
+        return ("exact", b"ok" + m.group(1))
+    m = RE_FIRST_WORD.match(req)
+    if m and m.group(1) not in KNOWN_COMMANDS:
+        return ("prefix", b"error")
+    return None
+
+
+def check_reply(req, reply, what):
+    """reply: parsed xval of one reply.  Returns a reason or None."""
+    t, v = reply
+    if t != "L" or not v or v[0][0] != "N":
+        return "%s: malformed harness output" % what
+    code = v[0][1]
+    if code != 0:
+        return "%s: %s" % (what, {1: "the connection was refused although no request that closes the socket had been sent",
+                                  2: "I/O error on the connection", 3: "no reply within the bounded wait",
+                                  5: "no such connection"}.get(code, "outcome %d" % code))
+    data = v[1][1]
+    if not data:
+        return "%s: EMPTY reply (the connection was dropped without an answer)" % what
+    if not (data.startswith(b"ok") or data.startswith(b"error")):
+        return "%s: the reply %r begins with neither `ok` nor `error`" % (what, data[:60])
+    e = expected_reply(req)
+    if e is not None:
+        if e[0] == "exact" and data != e[1]:
+            return "%s: reply %r, expected %r (the arguments come back exactly, on the connection that sent them)" % (what, data[:200], e[1][:200])
+        if e[0] == "prefix" and not data.startswith(e[1]):
+            return "%s: reply %r, expected an `%s` reply" % (what, data[:60], e[1].decode())
+    return None
+
+
+def show(req):
+    return repr(req if len(req) <= 120 else req[:70] + b"..." + req[-30:]) + " (%d bytes)" % len(req)
+
+
+def conc_oracle(steps, outputs):
+    reqs, late, blocked_ok = {}, set(), set()
+    closing = shutdown = gate = False
+    count = 0
+    oi = 0
+    inflight = []
+    for step in steps:
+        op, k = step[1][0][1], step[1][1][1]
+        b = step[1][2][1] if len(step[1]) > 2 else b""
+        if op in (OP_OPEN, OP_REQ, OP_SEND):
+            reqs[k] = b""
+            if closing:
+                late.add(k)
+        if op in (OP_WRITE, OP_REQ, OP_SEND) and k in reqs:
+            reqs[k] += b
+        if op in (OP_FIN, OP_REQ, OP_SEND, OP_DROP) and may_close(reqs.get(k, b"")):
+            closing = True
+        if op == OP_SHUTDOWN:
+            closing = shutdown = True
+        if op == OP_RELEASE:
+            gate = True
+        if op in (OP_OPEN, OP_SEND):
+            inflight.append(k)
+        if op in (OP_AWAIT, OP_REQ, OP_PEEK):
+            if oi >= len(outputs):
+                return "the harness produced %d outputs, the script has more reading steps" % len(outputs)
+            o = outputs[oi]
+            oi += 1
+            if o[0] != "L" or len(o[1]) != 2 or o[1][0] != ("N", k):
+                return "output %d is not for connection %d" % (oi, k)
+            reply = o[1][1]
+            req = reqs.get(k, b"")
+            code = reply[1][0][1] if reply[0] == "L" and reply[1] and reply[1][0][0] == "N" else None
+            others = [j for j in inflight if j != k]
+            what = "connection %d, request %s%s" % (k, show(req), (" while connection(s) %s were pending" % others[:8]) if others and op == OP_REQ else "")
+            waits = (req.strip() == b"wait" and not shutdown) or (req.startswith(b"t-slow") and not gate)
+            if op == OP_PEEK:
+                if code == 4 and len(reply[1]) == 1:
+                    continue
+                if code == 4:
+                    return "%s: a reply was begun (%r) but the connection was not closed" % (what, reply[1][1][1][:60])
+            if code == 3 and waits:
+                continue
+            if code == 1 and k in late:
+                continue
+            why = check_reply(req, reply, what)
+            if why:
+                return why
+            if op == OP_REQ and req == b"t-count":
+                data = reply[1][1][1]
+                if data != b"ok %d" % count:
+                    return "%s: the counter plugin answered %r, expected %r (every request is handled exactly once)" % (what, data, b"ok %d" % count)
+                count += 1
+            if op in (OP_AWAIT, OP_REQ) and k in inflight:
+                inflight.remove(k)
+        if op == OP_DROP and k in inflight:
+            inflight.remove(k)
+    return None
+
+
+def extra_oracle(c, i):
+    if c.comp == "ctl.conc":
+        out = xparse(i)
+        if out[0] != "L" or (out[1] and out[1][0][0] == "N"):
+            return "the harness could not run the session: " + i[:80]
+        return conc_oracle(c.x[1], out[1])
+    if c.comp == "ctl.session":
+        out = xparse(i)
+        if out[0] != "L" or (out[1] and out[1][0][0] == "N"):
+            return "the harness could not run the session: " + i[:80]
+        closing = False
+        for n, (r, o) in enumerate(zip(c.x[1], out[1])):
+            req = r[1]
+            if not (closing and o == ("L", [("N", 1)])):
+                why = check_reply(req, o, "request %d of the session, %s" % (n, show(req)))
+                if why:
+                    return why
+            closing = closing or may_close(req)
+    return None
+
+
 def utf8_cases(rng, n):
     out = []
     for b in INVALID_UTF8 + VALID_EDGE_UTF8 + RAW_LINES:
@@ -313,6 +777,8 @@ def generate(rng, tier):
     cases = []
     quick = tier == "quick"
     cases += sessions(rng, 12 if quick else 400)
+    cases += conc_sessions(rng, quick)
+    cases += long_sessions(rng, quick)
     cases += utf8_cases(rng, 1500 if quick else 60000)
     # corpus: the confirmed defect and its neighbours first
     for l in ([()], [(), ()], [(A,), ()], [(), (A,)], [(A,), (), (A,)], [], [(SP,)], [(DQ,)], [(BS,)], [(SQ,)], [(BS, DQ)], [(DQ, BS)]):
@@ -416,11 +882,21 @@ LEVEL_TEXT = ("Machine-checked Coq theorems over a code-point-level model of enc
               "kvarnctl's message arrives as (command, args), ping echoes exactly; UTF-8 decode(encode s) = s; the reply framing equation; "
               "dispatch totality (not UTF-8 / unknown command / plugin Error => reply starts with 'error', plugin Ok => 'ok', kvarnctl reads that "
               "word as first token); for every history and every plugin table the listener stays Listening and answers every request until a "
-              "response with close = true, and answers nothing afterwards. The model is tied to /repo on every run by a differential run of the "
+              "response with close = true, and answers nothing afterwards. Strengthening: reply_total -- the handler with every panic of its own "
+              "operations explicit returns, for every request byte string and every table of non-panicking plugins, a reply beginning with "
+              "ok/error (ping's String::remove(0) proved safe; cutting a &str at a byte count proved NOT total: log_truncation_refuted); "
+              "socket_never_wedged -- in the transition system of the listener with any number of connections, in every state and after "
+              "every event sequence of the other connections and the environment, a connection whose request is complete keeps it and, as "
+              "soon as its handler is not blocked, gets its reply by its own step, which changes no other connection; accept_never_blocked "
+              "-- a new connection is accepted and read whatever the others do; clients_cannot_close; rejected requests get the same "
+              "error reply at whatever point of the interleaving they are handled. The model is tied to /repo on every run by a differential run of the "
               "real functions (bounded-exhaustive over {a, SP, \", ', \\} + random Unicode) and of real unix-socket sessions against a running "
-              "kvarn instance.")
+              "kvarn instance, sequential and with several connections pending at once, long requests around every length constant, "
+              "plus model-independent oracles on every reply.")
 LEVEL_NOTE = ("Trusted: Coq kernel, extraction (ExtrOcamlBasic) reduced by an in-kernel recheck sample, the hand transcription of "
               "utils/src/lib.rs, src/ctl.rs, signal/src/lib.rs and ctl/src/main.rs into Model/Quoted.v and Model/Ctl.v as validated by the "
-              "differential run; tokio / the kernel's unix sockets are outside the theorems (sequential request/reply framing assumed). "
+              "differential run; tokio / the kernel's unix sockets are outside the theorems (read_to_end framing and 'a spawned task runs' assumed; promptness is "
+              "checked by the run with a 6 s bound, not proved). Single tokens longer than 16 KiB are only run split into tokens of 700 bytes "
+              "(the model's splitter is quadratic in the token length); messages up to 64 KiB + are run. "
               "The model describes the code after the repair of the empty-argument defect (fixed: line in known-findings.txt). No axioms.")
 TECHNIQUE = "Coq proof (model satisfies the round-trip and dispatch specification for all inputs and histories) + differential correspondence model vs. implementation"
